@@ -74,18 +74,19 @@ Section Tee.
     c_wait : forall w, In w (twait s) -> tphase s w = TLockWait;
     c_nodup : NoDup (twait s);
     c_owner : forall o, towner s = Some o -> ~ In o (twait s);
-    c_seen : forall c, tseen s c = firstn (length (tseen s c)) src0;
-    c_seenlen : forall c, length (tseen s c) + retp s c = tlink s c;
-    c_ret : forall c v, tphase s c = TRetSh v -> nth_error src0 (length (tseen s c)) = Some v;
+    c_seen : forall c, tseen s c = firstn (length (tseen s c)) (skipn (tstart s c) src0);
+    c_seenlen : forall c, tstart s c + length (tseen s c) + retp s c = tlink s c;
+    c_ret : forall c v, tphase s c = TRetSh v -> nth_error src0 (tstart s c + length (tseen s c)) = Some v;
     c_endck : forall c, tphase s c = TEndCk -> tcells s (tlink s c) = Some CEnd;
-    c_stop : forall c, tstopped s c = true -> tseen s c = src0
+    c_stop : forall c, tstopped s c = true -> tseen s c = skipn (tstart s c) src0;
+    c_startb : forall c, tstart s c <= length src0
   }.
 
   Definition Own (s : tst) : Prop := forall o, towner s = Some o -> is_lock_phase (tphase s o) = true.
 
   Lemma core_init mode n : Core (tinit mode src0 n).
   Proof.
-    constructor; cbn; intros; try discriminate; try tauto; try reflexivity.
+    constructor; cbn; intros; try discriminate; try tauto; try reflexivity; try lia.
     - split; [lia|reflexivity].
     - constructor.
   Qed.
@@ -93,9 +94,10 @@ Section Tee.
   Lemma link_bound s c : Core s -> tlink s c <= length src0.
   Proof.
     intros H. pose proof (c_seenlen s H c) as L. pose proof (prefix_len _ _ (c_seen s H c)) as P.
-    unfold retp in L. destruct (tphase s c) eqn:E; try lia.
+    pose proof (c_startb s H c) as B. rewrite skipn_length in P.
+    unfold retp in L. destruct (tphase s c) as [| | | | |v] eqn:E; try lia.
     pose proof (c_ret s H c v E) as R.
-    assert (length (tseen s c) < length src0) by (apply nth_error_Some; congruence). lia.
+    assert (tstart s c + length (tseen s c) < length src0) by (apply nth_error_Some; congruence). lia.
   Qed.
 
   Ltac upd_cases :=
@@ -110,7 +112,8 @@ Section Tee.
     pose proof (c_none _ H) as Hnone; pose proof (c_link _ H) as Hlink; pose proof (c_fill _ H) as Hfill;
     pose proof (c_yield _ H) as Hyield; pose proof (c_wait _ H) as Hwait; pose proof (c_nodup _ H) as Hnodup;
     pose proof (c_owner _ H) as Howner; pose proof (c_seen _ H) as Hseen; pose proof (c_seenlen _ H) as Hseenlen;
-    pose proof (c_ret _ H) as Hret; pose proof (c_endck _ H) as Hendck; pose proof (c_stop _ H) as Hstop.
+    pose proof (c_ret _ H) as Hret; pose proof (c_endck _ H) as Hendck; pose proof (c_stop _ H) as Hstop;
+    pose proof (c_startb _ H) as Hstartb.
 
   (* pending / retp under a phase change of consumer c *)
   Lemma pending_set s c P ow :
@@ -444,9 +447,9 @@ Section Tee.
   Lemma step_inv s o : TInv s -> TInv (fst (tstep1 s o)).
   Proof.
     intros [H HO]. unfold tstep1.
-    destruct (tstep s o) as [[s1 r] ev] eqn:E. cbn [fst].
-    assert (Hs1 : s1 = fst (fst (tstep s o))) by now rewrite E. rewrite Hs1. clear E Hs1 s1 r ev.
-    destruct o as [c|c]; unfold tstep.
+    destruct (tstep0 s o) as [[s1 r] ev] eqn:E. cbn [fst].
+    assert (Hs1 : s1 = fst (fst (tstep0 s o))) by now rewrite E. rewrite Hs1. clear E Hs1 s1 r ev.
+    destruct o as [c|c]; unfold tstep0.
     - destruct (negb (c <? tn s) || negb (is_tidle (tphase s c))) eqn:G; [split; assumption|].
       assert (Hc : tphase s c = TIdle).
       { apply orb_false_elim in G as [_ G]. destruct (tphase s c); cbn in G; try discriminate. reflexivity. }
@@ -519,14 +522,14 @@ Proof. unfold t_release. destruct (twait s); reflexivity. Qed.
 Lemma release_stopped s : tstopped (t_release s) = tstopped s.
 Proof. unfold t_release. destruct (twait s); reflexivity. Qed.
 
-Theorem tee_outputs_logged : forall s o s' r ev, tstep s o = (s', r, ev) ->
+Theorem tee_outputs_logged : forall s o s' r ev, tstep0 s o = (s', r, ev) ->
   match r with
   | TRet v => exists c, (o = TNext c \/ o = TResume c) /\ tseen s' c = tseen s c ++ [v]
   | TStop => exists c, (o = TNext c \/ o = TResume c) /\ tstopped s' c = true
   | _ => True
   end.
 Proof.
-  intros s o s' r ev H. destruct o as [c|c]; unfold tstep, t_locked, t_fill, t_finish in H;
+  intros s o s' r ev H. destruct o as [c|c]; unfold tstep0, t_locked, t_fill, t_finish in H;
     repeat match type of H with
            | context [match ?x with _ => _ end] => destruct x eqn:?
            end; inversion H; subst; clear H; cbn; auto;
@@ -549,11 +552,11 @@ Proof. vm_compute. auto. Qed.
 (* C08 for tee: every __anext__ call on a tee iterator suspends at least once - in one of the logged checkpoint
    functions or inside Lock.acquire - except a StopAsyncIteration delivered to a consumer that was already given
    an element (whose earlier calls did). *)
-Theorem tee_next_checkpoints : forall s c s' r ev, tstep s (TNext c) = (s', r, ev) -> r <> TRejected ->
+Theorem tee_next_checkpoints : forall s c s' r ev, tstep0 s (TNext c) = (s', r, ev) -> r <> TRejected ->
   (r = TBlocked /\ (has_ck ev = true \/ tphase s' c = TLockYield \/ tphase s' c = TLockWait)) \/
   (r = TStop /\ tyielded s c = true).
 Proof.
-  intros s c s' r ev H Hr. unfold tstep, t_finish in H.
+  intros s c s' r ev H Hr. unfold tstep0, t_finish in H.
   repeat match type of H with
          | context [match ?x with _ => _ end] => destruct x eqn:?
          end; inversion H; subst; clear H; try congruence; cbn; rewrite ?upd_same; auto.
@@ -639,9 +642,9 @@ Proof.
 Qed.
 
 Lemma live_step s o : Live s -> (forall c, tphase s c = TLockYield -> towner s = Some c) ->
-  (forall c x, tphase s c = TFilling x -> towner s = Some c) -> Live (fst (fst (tstep s o))).
+  (forall c x, tphase s c = TFilling x -> towner s = Some c) -> Live (fst (fst (tstep0 s o))).
 Proof.
-  intros HL Hy Hf. destruct o as [c|c]; unfold tstep.
+  intros HL Hy Hf. destruct o as [c|c]; unfold tstep0.
   - destruct (negb (c <? tn s) || negb (is_tidle (tphase s c))) eqn:G; [exact HL|].
     apply orb_false_elim in G as [G1 G2].
     assert (Hc : c < tn s) by (apply negb_false_iff, Nat.ltb_lt in G1; exact G1).
@@ -687,8 +690,8 @@ Proof.
   assert (G : forall ops s, TInv src s /\ Live s -> TInv src (final tstep1 s ops) /\ Live (final tstep1 s ops)).
   { clear. induction ops as [|o r IH]; intros s H; [exact H|]. cbn. apply IH. destruct H as [HI HL]. split.
     - now apply step_inv.
-    - unfold tstep1. destruct (tstep s o) as [[s1 rr] ev] eqn:E. cbn [fst].
-      replace s1 with (fst (fst (tstep s o))) by now rewrite E.
+    - unfold tstep1. destruct (tstep0 s o) as [[s1 rr] ev] eqn:E. cbn [fst].
+      replace s1 with (fst (fst (tstep0 s o))) by now rewrite E.
       destruct HI as [HC _]. apply live_step; [exact HL|apply (c_yield _ _ HC)|].
       intros c x Ex. now destruct (c_fill _ _ HC c x Ex). }
   apply G. split; [split; [apply core_init|intros o E; discriminate]|].
@@ -719,7 +722,7 @@ Qed.
 
 Theorem tee_no_deadlock : forall mode src n ops c,
   let s := trun mode src n ops in
-  tphase s c <> TIdle -> exists c', snd (fst (tstep s (TResume c'))) <> TRejected.
+  tphase s c <> TIdle -> exists c', snd (fst (tstep0 s (TResume c'))) <> TRejected.
 Proof.
   intros mode src n ops c s Hc.
   destruct (run_inv src mode n ops) as [HC HO]. pose proof (run_live src mode n ops) as [Hn Hl Hwt].
@@ -727,15 +730,15 @@ Proof.
   assert (R : forall o, o < tn s -> (tphase s o = TLockYield \/ (exists x, tphase s o = TFilling x) \/
                 tphase s o = TEndCk \/ (exists v, tphase s o = TRetSh v) \/
                 (tphase s o = TLockWait /\ towner s = Some o)) ->
-              snd (fst (tstep s (TResume o))) <> TRejected).
-  { intros o Ho Hp. unfold tstep. apply Nat.ltb_lt in Ho. rewrite Ho. cbn [negb].
+              snd (fst (tstep0 s (TResume o))) <> TRejected).
+  { intros o Ho Hp. unfold tstep0. apply Nat.ltb_lt in Ho. rewrite Ho. cbn [negb].
     destruct Hp as [E|[[x E]|[E|[[v E]|[E Eo]]]]]; rewrite E.
     - apply locked_not_rejected.
     - apply fill_not_rejected.
     - cbn. discriminate.
     - cbn. discriminate.
     - rewrite Eo. cbn. rewrite Nat.eqb_refl. apply locked_not_rejected. }
-  assert (RO : forall o, towner s = Some o -> snd (fst (tstep s (TResume o))) <> TRejected).
+  assert (RO : forall o, towner s = Some o -> snd (fst (tstep0 s (TResume o))) <> TRejected).
   { intros o Eo. pose proof (HO o Eo) as Hlp.
     assert (Hne : tphase s o <> TIdle) by (intros E; rewrite E in Hlp; discriminate).
     apply R; [now apply Hn|].
